@@ -80,3 +80,10 @@ package php5
 //@   ensures p.errHandlerFunc != nil ==> (cbcount() == old(cbcount()) + 1 && cbarg() == int(e))
 //@   modifies nothing
 //@   props C01, C06
+
+// The driver must receive the scanner's tokens as they are: Parser.Lex is pinned to "take the next
+// token from the lexer, remember it as the current token, hand it to the driver" (exact trace). The
+// composition arguments of C02 and C07 (no text is invented, duplicated or reordered) start from the
+// token stream the scanner produced; anything Lex added to, removed from or moved between tokens
+// would break them without touching a grammar action.
+//@ trace helper Lex := [] $0.Lexer.Lex(); store &$0.currentToken := result($0.Lexer.Lex()); store &$1.token := result($0.Lexer.Lex()) => result($0.Lexer.Lex()).ID
